@@ -207,6 +207,7 @@ def inline_new_helpers(tree, module_name, functions_of_class):
     if base is None:
         return 0
     count = 0
+    inlined = set()
 
     def target(call, cls_name):
         f = call.func
@@ -284,6 +285,7 @@ def inline_new_helpers(tree, module_name, functions_of_class):
                                 ast.copy_location(n, st)
                         block[i:i + 1] = new
                         count += 1
+                        inlined.add((owner, d.name))
                         done = True
                         rewrite_block(new, cls_name, depth + 1)
                         i += len(new)
@@ -301,6 +303,26 @@ def inline_new_helpers(tree, module_name, functions_of_class):
                         rewrite_block(h.body, cls_name, depth)
                 i += 1
     rewrite_block(tree.body, None)
+    # a helper every use of which was folded back no longer exists as far as the rules are concerned
+    for owner, name in inlined:
+        holder = tree.body
+        if owner is not None:
+            cl = [c for c in tree.body if isinstance(c, ast.ClassDef) and c.name == owner]
+            if not cl:
+                continue
+            holder = cl[0].body
+        fdefs = [f for f in holder if isinstance(f, ast.FunctionDef) and f.name == name]
+        refs = 0
+        for n in ast.walk(tree):
+            if any(n is f for f in fdefs):
+                continue
+            if (isinstance(n, ast.Attribute) and n.attr == name) or (isinstance(n, ast.Name) and n.id == name):
+                refs += 1
+        inner = sum(1 for f in fdefs for n in ast.walk(f)
+                    if (isinstance(n, ast.Attribute) and n.attr == name) or (isinstance(n, ast.Name) and n.id == name))
+        if refs - inner <= 0:
+            for f in fdefs:
+                holder.remove(f)
     if count:
         ast.fix_missing_locations(tree)
     return count
